@@ -1,7 +1,7 @@
 (* C17  Well-formed values cannot panic the consumers: listing (attr_to_api),
    encoding, as_path_length, the best-path comparator. *)
 From Coq Require Import List ZArith NArith Bool Lia ZifyBool ZifyNat ZifyN.
-From RB Require Import Base.Val Model.Api Spec.ApiSpec Proofs.ApiBytes Proofs.ApiStr Proofs.ApiSeg Proofs.ApiRt Proofs.ApiWf.
+From RB Require Import Base.Val Model.Api Spec.ApiSpec Proofs.ApiBytes Proofs.ApiStr Proofs.ApiSeg Proofs.ApiRt Proofs.ApiWf Proofs.ApiNlri.
 Import ListNotations.
 Open Scope N_scope.
 
@@ -119,4 +119,76 @@ Proof.
     + apply Forall_app. split; [exact Hk|]. constructor; [exact Ho|constructor].
     + apply Forall_app. split; [apply Forall_app; split; [exact Hk|constructor; [exact Ho|constructor]]|].
       constructor; [exact Hp|constructor].
+Qed.
+
+(* ------------------------------------------------------------------ *)
+(* GrpcService::local_path                                               *)
+Lemma with_defaults_wf : forall k, Forall wf_attr k -> Forall wf_attr (with_defaults k).
+Proof.
+  intros k Hk. unfold with_defaults.
+  assert (Ho : wf_attr (mkAttr ORIGIN 64 (DVal 0))) by (repeat split; cbn; lia).
+  assert (Hp : wf_attr (mkAttr AS_PATH 64 (DBin []))).
+  { repeat split; cbn; try lia; constructor. }
+  destruct (existsb _ k).
+  - destruct (existsb _ _); [exact Hk|]. apply Forall_app. split; [exact Hk|]. constructor; [exact Hp|constructor].
+  - destruct (existsb _ _).
+    + apply Forall_app. split; [exact Hk|]. constructor; [exact Ho|constructor].
+    + apply Forall_app. split; [apply Forall_app; split; [exact Hk|constructor; [exact Ho|constructor]]|].
+      constructor; [exact Hp|constructor].
+Qed.
+
+Lemma with_defaults_has : forall k,
+  existsb (fun a => a_code a =? ORIGIN) (with_defaults k) = true
+  /\ existsb (fun a => a_code a =? AS_PATH) (with_defaults k) = true.
+Proof.
+  intros k. unfold with_defaults.
+  set (k1 := if existsb (fun a => a_code a =? ORIGIN) k then k else k ++ [mkAttr ORIGIN 64 (DVal 0)]).
+  assert (H1 : existsb (fun a => a_code a =? ORIGIN) k1 = true).
+  { subst k1. destruct (existsb (fun a => a_code a =? ORIGIN) k) eqn:E; [exact E|].
+    rewrite existsb_app. cbn. apply orb_true_r. }
+  destruct (existsb (fun a => a_code a =? AS_PATH) k1) eqn:E2.
+  - split; assumption.
+  - rewrite !existsb_app, H1, E2. cbn. split; reflexivity.
+Qed.
+
+Lemma lp_loop_wf : forall v6r fam xs acc nh acc' nh',
+  Forall api_in_range xs -> Forall wf_attr acc ->
+  lp_loop v6r fam xs acc nh = Some (acc', nh') -> Forall wf_attr acc'.
+Proof.
+  intros v6r fam xs. induction xs as [|x r IH]; intros acc nh acc' nh' Hr Hacc H; cbn [lp_loop] in H.
+  - injection H as <- _. exact Hacc.
+  - pose proof (Forall_inv Hr) as Hx. pose proof (Forall_inv_tail Hr) as Hrr.
+    destruct (from_api v6r x) as [[a|]|] eqn:Ef; try discriminate.
+    pose proof (from_api_wf v6r x a Hx Ef) as Hwa.
+    destruct (a_code a =? MP_REACH).
+    { cbv zeta in H.
+      assert (G : forall o, match o with
+                            | Some _ => lp_loop v6r fam r acc o
+                            | None => if (nth 3 match a_data a with DVal _ => [] | DBin b | DOpaque b => b end 1 =? 0) && is_flowspec fam
+                                      then lp_loop v6r fam r acc None else None
+                            end = Some (acc', nh') -> Forall wf_attr acc').
+      { intros [l|] Ho; [eapply IH; eassumption|]. destruct (_ && _); [eapply IH; eassumption|discriminate]. }
+      destruct (a_data a) as [|b|b]; [discriminate| |]; cbn iota in G; eapply G; exact H. }
+    destruct (a_code a =? NEXTHOP); [eapply IH; eassumption|].
+    destruct (_ || _); [eapply IH; eassumption|].
+    eapply IH; [exact Hrr| |exact H]. apply Forall_app. split; [exact Hacc|]. constructor; [exact Hwa|constructor].
+Qed.
+
+(* a path accepted by local_path carries a well-formed NLRI and well-formed
+   attributes including ORIGIN and AS_PATH *)
+Theorem local_path_wf : forall v6r fam n xs family net attrs nh,
+  (forall s a, v6r s = Some a -> a < 2 ^ 128) ->
+  Forall api_in_range xs ->
+  local_path v6r fam n xs = Some (family, net, attrs, nh) ->
+  wf_nlri net /\ Forall wf_attr attrs
+  /\ existsb (fun a => a_code a =? ORIGIN) attrs = true
+  /\ existsb (fun a => a_code a =? AS_PATH) attrs = true.
+Proof.
+  intros v6r fam n xs family net attrs nh Hrg Hr H. unfold local_path in H.
+  destruct (net_from_api v6r n) as [net0|] eqn:En; [|discriminate].
+  destruct (lp_loop v6r _ xs [] None) as [[acc nh0]|] eqn:El; [|discriminate].
+  injection H as _ <- <- _.
+  split; [eapply (ApiNlri.net_from_api_wf (fun _ => []) v6r); eassumption|].
+  split; [apply with_defaults_wf; eapply lp_loop_wf; [exact Hr|constructor|exact El]|].
+  apply with_defaults_has.
 Qed.
